@@ -54,7 +54,7 @@ Inductive in_handler :=
 Inductive out_handler :=
 | OSaveH                    (* setStorageCallbacks: store before send *)
 | OTimerRefresh (gen : nat) (* start: refresh the outbound timer *)
-| OApp (id : nat) (accept : bool).
+| OApp (id : nat) (accept : bool) (amend : bool).  (* amend: the handler rewrites TargetCompID *)
 
 Inductive ev_handler :=
 | EDisconnectCancel         (* Run: cancel the session, stop the handler *)
@@ -271,37 +271,51 @@ Definition store_messages (s : sstate) (from to : Z) : option (list message) :=
   else if Z.ltb (s_cnt_out s) to then None         (* ErrNotEnoughMessages *)
   else store_range (s_store s) from (Z.to_nat (to - from + 1)).
 
+(* what an amending application handler does to the message it is shown *)
+Definition amend_msg (id : nat) (m : message) : message :=
+  with_header m (set_kv tag_TargetCompID (VString true ([97;109;100] ++ utoa (N.of_nat id))) (m_header m)).
+
+(* the store keeps the message object itself (a pointer in Go): what a later handler changes in
+   the message is changed in the stored message too *)
+Fixpoint store_alias (st : list (Z * message)) (k : Z) (m : message) : list (Z * message) :=
+  match st with
+  | [] => []
+  | (k', m') :: r => if Z.eqb k k' then (k', m) :: r else (k', m') :: store_alias r k m
+  end.
+
 (* DefaultHandler.send: outgoing ALL handlers, type handlers, ToBytes, enqueue *)
 Fixpoint run_out_handlers (cfg : config) (s : sstate) (m : message) (hs : list out_handler)
-  : sstate * list out * bool :=
+  : sstate * list out * bool * message :=
   match hs with
-  | [] => (s, [], true)
+  | [] => (s, [], true, m)
   | h :: r =>
       match h with
       | OSaveH =>
           let seq := get_int tag_MsgSeqNum (m_header m) in
           let fails := existsb (Nat.eqb (s_saves s)) (c_fail_saves cfg) in
-          if fails then (upd_store s (s_store s) (S (s_saves s)), [OSave seq false], false)
+          if fails then (upd_store s (s_store s) (S (s_saves s)), [OSave seq false], false, m)
           else
             let s' := upd_store s ((seq, m) :: s_store s) (S (s_saves s)) in
-            let '(s'', o, ok) := run_out_handlers cfg s' m r in
-            (s'', OSave seq true :: o, ok)
+            let '(s'', o, ok, m') := run_out_handlers cfg s' m r in
+            (s'', OSave seq true :: o, ok, m')
       | OTimerRefresh _ => run_out_handlers cfg s m r
-      | OApp id accept =>
+      | OApp id accept amend =>
           let seq := get_int tag_MsgSeqNum (m_header m) in
           if accept then
-            let '(s', o, ok) := run_out_handlers cfg s m r in (s', OAppOut id seq :: o, ok)
-          else (s, [OAppOut id seq], false)
+            let m1 := if amend then amend_msg id m else m in
+            let s1 := if amend then upd_store s (store_alias (s_store s) seq m1) (s_saves s) else s in
+            let '(s', o, ok, m') := run_out_handlers cfg s1 m1 r in (s', OAppOut id seq :: o, ok, m')
+          else (s, [OAppOut id seq], false, m)
       end
   end.
 
 Definition router_send (cfg : config) (s : sstate) (m : message) : sstate * list out * bool :=
-  let '(s1, o1, ok1) := run_out_handlers cfg s m (pool_get (s_out s) ALL) in
+  let '(s1, o1, ok1, m1) := run_out_handlers cfg s m (pool_get (s_out s) ALL) in
   if negb ok1 then (s1, o1 ++ [OSendErr], false) else
-  let '(s2, o2, ok2) := run_out_handlers cfg s1 m (pool_get (s_out s1) (mt_of m)) in
+  let '(s2, o2, ok2, m2) := run_out_handlers cfg s1 m1 (pool_get (s_out s1) (mt_of m1)) in
   if negb ok2 then (s2, o1 ++ o2 ++ [OSendErr], false) else
   if s_router_stopped s2 then (s2, o1 ++ o2 ++ [OSendErr], false)
-  else (s2, o1 ++ o2 ++ [OWire (fst (prepare m))], true).
+  else (s2, o1 ++ o2 ++ [OWire (fst (prepare m2))], true).
 
 (* Session.send: number, stamp, Router.Send *)
 Definition session_send (cfg : config) (s : sstate) (m : message) : sstate * list out :=
@@ -576,7 +590,7 @@ Inductive op :=
 | AppStop                                          (* Session.Stop *)
 | CloseDeadline                                    (* the close timeout of a Stop elapses *)
 | RegIn (mt : bytes) (id : nat) (accept : bool)    (* HandleIncoming *)
-| RegOut (mt : bytes) (id : nat) (accept : bool)   (* HandleOutgoing *)
+| RegOut (mt : bytes) (id : nat) (accept amend : bool)   (* HandleOutgoing *)
 | RegEv (e : event) (id : nat) (cont : bool)       (* OnChangeState *)
 | InTimerFire (g : nat)                            (* the inbound timer of generation g expires *)
 | OutTimerFire (g : nat).                          (* the outbound timer of generation g expires *)
@@ -599,7 +613,7 @@ Definition step (cfg : config) (s : sstate) (o : op) : sstate * list out :=
       do_logout cfg s1
   | CloseDeadline => (upd_cancel s true (s_router_stopped s), [])
   | RegIn mt id a => (upd_pools s (pool_add (s_in s) mt (HApp id a)) (s_out s) (s_ev s), [])
-  | RegOut mt id a => (upd_pools s (s_in s) (pool_add (s_out s) mt (OApp id a)) (s_ev s), [])
+  | RegOut mt id a am => (upd_pools s (s_in s) (pool_add (s_out s) mt (OApp id a am)) (s_ev s), [])
   | RegEv e id c => (upd_pools s (s_in s) (s_out s) (ev_add (s_ev s) e (EApp id c)), [])
   | InTimerFire g =>
       if negb (timer_live s g) || s_intimer_done s then (s, [])
